@@ -602,7 +602,7 @@ pub fn replay_c19p(case: serde_json::Value) -> R<CaseMeta> {
 // ---------------------------------------------------------------------------------------------
 // C02 — large indexes: thousands of keys, snapshots and log records far beyond buffer sizes
 
-pub const C02_LARGE_RULE: &str = "large indexes: 0-4000 keys (String keys r/NNNNN, or u64 keys i*0x9E3779B97F4A7C15 whose encoded byte order differs from their numeric order) are put with three shared small contents; a checkpoint at a generated position, a remove_range over a generated sub-range (one log record of up to ~100 KB), optionally another checkpoint; then the handle is dropped and the store reopened; a few more puts and removes and a second reopen; N in {1 (<=600 keys), 7, 100, 10000}, both sync modes. Oracle: after each reopen the index holds exactly the model's keys with {blake3(content), length}, known_blobs() equals the model's reference counts, and sampled keys read back their bytes. non-trivial = >=300 keys at a reopen AND a range removal of >=2 keys or a checkpoint with log records after it; distinct by case hash";
+pub const C02_LARGE_RULE: &str = "large indexes: 0-9000 keys (String keys r/NNNNN - in half of the String cases with a 24-byte suffix and one 70 000-byte key, so that single Put records and range-removal records exceed 64 KiB - or u64 keys i*0x9E3779B97F4A7C15 whose encoded byte order differs from their numeric order) are put with three shared small contents; a checkpoint at a generated position, a remove_range over a generated sub-range (one log record of up to ~300 KB), optionally another checkpoint; then the handle is dropped and the store reopened; a few more puts and removes and a second reopen; N in {1 (<=600 keys), 7, 100, 10000}, both sync modes. Oracle: after each reopen the index holds exactly the model's keys with {blake3(content), length}, known_blobs() equals the model's reference counts, and sampled keys read back their bytes. non-trivial = >=300 keys at a reopen AND a range removal of >=2 keys or a checkpoint with log records after it; distinct by case hash";
 
 #[derive(Clone, Debug, Serialize, Deserialize)]
 pub struct C02LCase {
@@ -614,6 +614,10 @@ pub struct C02LCase {
     pub cp2: bool,
     pub extra: Vec<(u16, i8)>,
     pub asyn: bool,
+    /// String keys only: key 0 is 70 000 bytes long (a single Put record beyond 64 KiB) and all keys carry a
+    /// 24-byte suffix (range removals of a few thousand keys give records of 100-300 KB)
+    #[serde(default)]
+    pub long_keys: bool,
 }
 
 fn c02l_run_k<K: HKey>(case: &C02LCase, mk: impl Fn(u32) -> K) -> R<CaseMeta> {
@@ -704,8 +708,15 @@ fn c02l_run_k<K: HKey>(case: &C02LCase, mk: impl Fn(u32) -> K) -> R<CaseMeta> {
     }
     m.class(if case.int_keys { "large_u64_keys" } else { "large_string_keys" });
     m.class(&format!("large_n_{}", case.n));
-    if removed * 12 > 8192 {
+    let per_key = if case.int_keys { 12 } else if case.long_keys { 36 } else { 11 };
+    if removed * per_key > 8192 {
         m.class("remove_record_gt_8k");
+    }
+    if removed * per_key > 65_536 {
+        m.class("remove_record_gt_64k");
+    }
+    if case.long_keys && !case.int_keys && case.n_keys > 0 {
+        m.class("put_record_gt_64k");
     }
     if model.len() * 50 > 131_072 {
         m.class("snapshot_gt_128k");
@@ -717,17 +728,26 @@ fn c02l_run(case: &C02LCase) -> R<CaseMeta> {
     if case.int_keys {
         c02l_run_k::<u64>(case, |i| (i as u64).wrapping_mul(0x9E37_79B9_7F4A_7C15))
     } else {
-        c02l_run_k::<String>(case, |i| format!("r/{i:05}"))
+        let long = case.long_keys;
+        c02l_run_k::<String>(case, move |i| {
+            if !long {
+                format!("r/{i:05}")
+            } else if i == 0 {
+                format!("r/{i:05}/{}", "x".repeat(70_000))
+            } else {
+                format!("r/{i:05}/key-suffix-of-24-bytes..")
+            }
+        })
     }
 }
 
 pub fn run_c02_large(ctx: &Ctx, acc: &Mutex<Acc>) -> Option<Violation> {
     let cases = ctx.tier.scale(6, 10);
     let strat = || {
-        (any::<bool>(), prop_oneof![1 => 0u16..50, 2 => 300u16..1500, 4 => 1500u16..4000], prop_oneof![Just(1u64), Just(7u64), Just(100u64), Just(10_000u64)], any::<bool>()).prop_flat_map(|(int_keys, n_keys, n, asyn)| {
+        (any::<bool>(), prop_oneof![1 => 0u16..50, 2 => 300u16..1500, 4 => 1500u16..4000, 2 => 4000u16..9000], prop_oneof![Just(1u64), Just(7u64), Just(100u64), Just(10_000u64)], any::<bool>(), any::<bool>()).prop_flat_map(|(int_keys, n_keys, n, asyn, long_keys)| {
             let n_keys = if n == 1 { n_keys.min(600) } else { n_keys };
             let nk = n_keys.max(1);
-            (proptest::option::weighted(0.6, 0..nk), proptest::option::weighted(0.7, prop_oneof![2 => (0..nk / 8 + 1, nk - nk / 8 - 1..nk), 1 => (0..nk / 2 + 1, nk / 4..nk), 1 => (0..nk, 0..nk)]), any::<bool>(), vec((0..nk + 10, -1i8..3), 0..6)).prop_map(move |(cp1, rr, cp2, extra)| C02LCase { int_keys, n_keys, n, cp1, rr, cp2, extra, asyn })
+            (proptest::option::weighted(0.6, 0..nk), proptest::option::weighted(0.7, prop_oneof![2 => (0..nk / 8 + 1, nk - nk / 8 - 1..nk), 1 => (0..nk / 2 + 1, nk / 4..nk), 1 => (0..nk, 0..nk)]), any::<bool>(), vec((0..nk + 10, -1i8..3), 0..6)).prop_map(move |(cp1, rr, cp2, extra)| C02LCase { int_keys, n_keys, n, cp1, rr, cp2, extra, asyn, long_keys })
         })
     };
     campaign(ctx, acc, "large-index", "C02L", cases, 30, |_| strat(), c02l_run)
@@ -1607,7 +1627,7 @@ pub fn replay_c16(case: serde_json::Value) -> R<CaseMeta> {
 // =============================================================================================
 // C08 — planted damage (in-process)
 
-pub const C08_PLANT_RULE: &str = "planted damage: a store produced by a generated history is closed cleanly; then generated damage is planted — orphan blobs at canonical paths (also contents that share a prefix directory with live blobs), stray files directly under cas/, under cas/xx/ and under cas/xx/yy/ with non-hex or wrong-length names, leftover files in staging/, referenced blobs (lengths 0 to 300 001 bytes) deleted / truncated by one byte or to a generated fraction / extended by 1 to 300 000 bytes / altered in one bit at a generated position (first, last, anywhere) at the same length, and (separately counted class 'alias') files whose last three path components concatenate to 64 hex digits but that are not at the canonical location (shifted split, upper-case); both verify_blob_integrity values. Oracle: OrphanStats (orphaned, missing, corrupted, invalid, staging, total_blobs) == independent diff of the directory against the model; then one generated action: delete_orphans (counters == set sizes, no errors, afterwards no orphan/invalid/staging file remains and every referenced blob that existed is untouched), quarantine_orphans (every orphan moved to dir/<hex> with its bytes, referenced blobs untouched), or delete_orphan(h) for a reported and for a non-reported hash (true iff reported and unreferenced). non-trivial = >=2 damage classes at once, or an orphan sharing a directory level with a referenced blob; distinct by case hash";
+pub const C08_PLANT_RULE: &str = "planted damage: a store produced by a generated history is closed cleanly; then generated damage is planted — orphan blobs at canonical paths (also contents that share a prefix directory with live blobs), stray files directly under cas/, under cas/xx/ and under cas/xx/yy/ with non-hex or wrong-length names, leftover files in staging/, referenced blobs (lengths 0 to 300 001 bytes) deleted / truncated by one byte or to a generated fraction / extended by 1 to 300 000 bytes / altered in one bit at a generated position (first, last, anywhere) at the same length, and (separately counted class 'alias') files whose last three path components concatenate to 64 hex digits but that are not at the canonical location (shifted split, upper-case); both verify_blob_integrity values. Oracle: OrphanStats (orphaned, missing, corrupted, invalid, staging, total_blobs) == independent diff of the directory against the model; then one generated action: delete_orphans (counters == set sizes, no errors, afterwards no orphan/invalid/staging file remains and every referenced blob that existed is untouched), quarantine_orphans (every orphan moved to dir/<hex> with its bytes, referenced blobs untouched), or delete_orphan(h) for a reported and for a non-reported hash (true iff reported and unreferenced); afterwards (unless stray files were planted) the contents of the removed orphans and a fresh content are put again and must be stored and read back; 4% of the stores are created with pre_create_cas_dirs=true. non-trivial = >=2 damage classes at once, or an orphan sharing a directory level with a referenced blob; distinct by case hash";
 
 #[derive(Clone, Debug, Serialize, Deserialize, PartialEq)]
 pub enum Dmg {
@@ -1644,6 +1664,9 @@ pub struct PlantCase {
     pub damage: Vec<Dmg>,
     pub verify: bool,
     pub action: PlantAction,
+    /// the store is created with pre_create_cas_dirs = true (65 536 directories; few cases)
+    #[serde(default)]
+    pub pre: bool,
 }
 
 fn plant_run(case: &PlantCase) -> R<CaseMeta> {
@@ -1653,7 +1676,7 @@ fn plant_run(case: &PlantCase) -> R<CaseMeta> {
     let keys: Vec<String> = vec!["a".into(), "b".into(), "c".into(), "dd".into(), "".into()];
     let mut model: BTreeMap<String, Bytes> = BTreeMap::new();
     {
-        let cas = Cas::<String>::open(&db, cfg_n(100, false)).map_err(|e| Fail::new("open-err", format!("{e:?}")))?;
+        let cas = Cas::<String>::open(&db, Config { pre_create_cas_dirs: case.pre, ..cfg_n(100, false) }).map_err(|e| Fail::new("open-err", format!("{e:?}")))?;
         for (k, c) in &case.puts {
             let key = keys[(*k as usize) % keys.len()].clone();
             // 0..4: small pool contents; 5: 20 011 bytes; 6: 300 001 bytes (beyond buffer and mmap/parallel-hash thresholds)
@@ -1906,6 +1929,35 @@ fn plant_run(case: &PlantCase) -> R<CaseMeta> {
             other => return Err(wrap(Fail::new("cleanup/harmed-live-data", format!("get({k:?}) after clean-up: {:?}", other.map(|o| o.map(|b| b.len())))))),
         }
     }
+    // clean-up is harmless: the store keeps accepting puts, in particular of the very contents whose orphaned
+    // files were just removed (the natural retry after a crash). Skipped when stray files / alias paths were
+    // planted: a stray *file* named like a shard directory legitimately blocks that shard.
+    let blocked = alias || case.damage.iter().any(|d| matches!(d, Dmg::StrayL0 { .. } | Dmg::StrayL1 { .. } | Dmg::StrayL2 { .. }));
+    if !blocked {
+        let mut again: Vec<Vec<u8>> = case.damage.iter().filter_map(|d| if let Dmg::Orphan { id } = d { Some(orphan_content(*id)) } else { None }).collect();
+        again.push(gen_content(31_337, 77));
+        for (i, content) in again.iter().enumerate() {
+            let key = format!("after-cleanup-{i}");
+            let r = (|| -> Result<(), LibError> {
+                let mut tx = cas.put(key.clone())?;
+                tx.write(content).map_err(|e| LibError::Io { operation: cassadilia::LibIoOperation::WriteStagingFile, path: None, source: std::io::Error::other(format!("{e:?}")) })?;
+                tx.finish()
+            })();
+            if let Err(e) = r {
+                return Err(wrap(Fail::new(format!("cleanup/put-fails-after-cleanup/{}", err_path(&e)), format!("after the clean-up a put of {} fails: {e:?}", if i + 1 == again.len() { "fresh content".to_string() } else { "the content of a removed orphan".to_string() }))));
+            }
+            match cas.get(&key) {
+                Ok(Some(b)) if b[..] == content[..] => {}
+                other => return Err(wrap(Fail::new("cleanup/put-after-cleanup-unreadable", format!("get after a put that followed the clean-up: {:?}", other.map(|o| o.map(|b| b.len())))))),
+            }
+        }
+        if again.len() > 1 {
+            m.class("orphan_content_put_again_after_cleanup");
+        }
+    }
+    if case.pre {
+        m.class("planted_on_pre_created_tree");
+    }
     for c in &classes {
         m.class(&format!("dmg_{c}"));
     }
@@ -1946,8 +1998,9 @@ pub fn run_c08_planted(ctx: &Ctx, acc: &Mutex<Acc>) -> Option<Violation> {
             vec(proptest::strategy::Union::new_weighted(alts), 0..6),
             any::<bool>(),
             prop_oneof![4 => Just(PlantAction::Delete), 2 => Just(PlantAction::Quarantine), 2 => any::<bool>().prop_map(|r| PlantAction::DeleteOne { reported: r })],
+            prop::bool::weighted(0.04),
         )
-            .prop_map(|(puts, damage, verify, action)| PlantCase { puts, damage, verify, action })
+            .prop_map(|(puts, damage, verify, action, pre)| PlantCase { puts, damage, verify, action, pre })
     };
     if let Some(v) = campaign(ctx, acc, "planted-damage", "C08P", cases, 300, |_| strat(false), plant_run) {
         return Some(v);
